@@ -582,6 +582,12 @@ func (e *specEnv) callExpr(k *ast.CallExpr) Val {
 			n := *e
 			n.inOld = true
 			return n.expr(k.Args[0])
+		case "now":
+			// now(e) inside old(..): e is evaluated in the current state (e.g. a
+			// ghost variable set during the call used as a key into the old heap)
+			n := *e
+			n.inOld = false
+			return n.expr(k.Args[0])
 		case "len":
 			v := e.expr(k.Args[0])
 			switch t := v.Typ.Underlying().(type) {
